@@ -5,16 +5,26 @@ Model: Model/Pat.lean (the ten first-pass checks + CompExp / GetExpName / GetTab
 IsOneValueType as written in the Go code), tied to the code by comparing, on programs with planted
 instances and near-misses, the real diagnostics (type and range, as multisets) with the model's.
 Proved here, for ALL expressions / parameter lists / statements:
- * `compExp_sound`  : the structural comparison used by "repeated if condition" (19) and
-   "self-assignment" (20) only equates expressions that are identical up to source locations
-   — no false positives; `compExp_refl`: it equates every function-free, constructor-free expression
-   with itself — `x = x`, `a.b[1] = a.b[1]`, `if c then elseif c` are always caught;
+ * `compExp_sound` + `compExp_floats` : the structural comparison used by "repeated if condition" (19) and
+   "self-assignment" (20) only equates expressions that are identical up to source locations and the
+   spelling of float numerals of equal value — no false positives; `compExp_refl`: it equates every
+   function-free, constructor-free expression with itself — `x = x`, `a.b[1] = a.b[1]`,
+   `if c then elseif c` are always caught; `else_not_compared`: the else branch is not a condition;
+ * `dupKeys_exact` + `keyStr_same` : a type-5 report at a key ⇔ an earlier key of the constructor is the same
+   integer, string or bracketed name (the three encodings are injective and disjoint);
  * `dupParams_exact` : a type-13 report at parameter j ⇔ an earlier parameter has the same name (≠ "_");
+ * `sameOperands_exact` : a type-14 report ⇔ comparison / and / or whose operands are the same access path
+   (names, string keys, parentheses) up to locations and redundant parentheses;
  * `orTrue_exact`, `andFalse_exact`, `floatEq_exact` : reports of 15 / 16 / 21 at a binary node ⇔ the
    documented shape;
  * `arity_exact` : 7 / 8 ⇔ more values than targets, or fewer values all of which are single-valued.
+Findings (model = implementation ≠ property, `K1_witness`, `K2_witness`): identical operands that are not
+access paths and duplicate boolean / float / negative keys are not reported; the run-time check compares
+the model with the wider specification Spec/Pat.lean to tell these classes from anything else.
 -/
 import LuaHelper.Model.Pat
+import LuaHelper.Proofs.Pat
+import LuaHelper.Spec.Pat
 import LuaHelper.Gen.Shapes
 namespace LuaHelper.C20
 open LuaHelper.Lex LuaHelper.Ast LuaHelper.Pat
@@ -34,11 +44,12 @@ theorem pattern_insert_sites :
 /-! ### CompExp -/
 
 mutual
-/-- an expression with every source location replaced by the zero location (functions, table
-    constructors, `noKey` and `bad` are kept as they are: CompExp never equates them) -/
+/-- an expression with every source location replaced by the zero location and every float numeral by
+    the empty text (the float numerals are listed by `floats`; functions, table constructors, `noKey` and
+    `bad` are kept as they are: CompExp never equates them) -/
 def erase : Exp → Exp
   | .nil _ => .nil zeroLoc | .tru _ => .tru zeroLoc | .fls _ => .fls zeroLoc | .vararg _ => .vararg zeroLoc
-  | .int v _ => .int v zeroLoc | .flt t _ => .flt t zeroLoc | .str s _ => .str s zeroLoc
+  | .int v _ => .int v zeroLoc | .flt _ _ => .flt [] zeroLoc | .str s _ => .str s zeroLoc
   | .unop o e _ => .unop o (erase e) zeroLoc
   | .binop o a b _ => .binop o (erase a) (erase b) zeroLoc
   | .name n _ => .name n zeroLoc
@@ -58,7 +69,7 @@ theorem compExp_sound : (a b : Exp) → compExp a b = true → erase a = erase b
   | .tru _, .tru _, _ => by simp [erase]
   | .vararg _, .vararg _, _ => by simp [erase]
   | .int x _, .int y _, h => by simp [compExp] at h; simp [erase, h]
-  | .flt x _, .flt y _, h => by simp [compExp] at h; simp [erase, h]
+  | .flt x _, .flt y _, _ => by simp [erase]
   | .str x _, .str y _, h => by simp [compExp] at h; simp [erase, h]
   | .name x _, .name y _, h => by simp [compExp] at h; simp [erase, h]
   | .parens x _, .parens y _, h => by
@@ -155,6 +166,123 @@ end
 #print axioms compExp_sound
 
 
+/-! ### float numerals: compared by value -/
+
+mutual
+/-- the float numerals of an expression, in source order -/
+def floats : Exp → List Bytes
+  | .flt t _ => [t]
+  | .unop _ e _ => floats e
+  | .binop _ a b _ => floats a ++ floats b
+  | .parens e _ => floats e
+  | .index p k _ => floats p ++ floats k
+  | .call p _ a _ => floats p ++ floatss a
+  | _ => []
+def floatss : List Exp → List Bytes
+  | [] => []
+  | e :: r => floats e ++ floatss r
+end
+
+/-- pairwise equal values -/
+def sameFloats : List Bytes → List Bytes → Prop
+  | [], [] => True
+  | x :: r, y :: s => fltEq x y = true ∧ sameFloats r s
+  | _, _ => False
+
+theorem sameFloats_append : ∀ (a b c d : List Bytes), sameFloats a b → sameFloats c d → sameFloats (a ++ c) (b ++ d)
+  | [], [], _, _, _, h => by simpa using h
+  | x :: r, y :: s, c, d, h1, h2 => ⟨h1.1, sameFloats_append r s c d h1.2 h2⟩
+  | [], _ :: _, _, _, h, _ => by simp [sameFloats] at h
+  | _ :: _, [], _, _, h, _ => by simp [sameFloats] at h
+
+mutual
+/-- the float numerals of two expressions equated by CompExp have pairwise the same value — with
+    `compExp_sound`: CompExp only equates expressions that are identical up to source locations and the
+    spelling of float numerals of equal value (`1.5` / `1.50`) -/
+theorem compExp_floats : (a b : Exp) → compExp a b = true → sameFloats (floats a) (floats b)
+  | .flt x _, .flt y _, h => by simp only [compExp] at h; exact ⟨h, trivial⟩
+  | .parens x _, .parens y _, h => by
+    simp only [compExp] at h; simpa [floats] using compExp_floats x y h
+  | .unop o1 x _, .unop o2 y _, h => by
+    simp only [compExp, Bool.and_eq_true] at h
+    simpa [floats] using compExp_floats x y h.2
+  | .binop o1 x1 x2 _, .binop o2 y1 y2 _, h => by
+    simp only [compExp, Bool.and_eq_true] at h
+    simp only [floats]
+    exact sameFloats_append _ _ _ _ (compExp_floats x1 y1 h.1.2) (compExp_floats x2 y2 h.2)
+  | .index p1 k1 _, .index p2 k2 _, h => by
+    simp only [compExp, Bool.and_eq_true] at h
+    simp only [floats]
+    exact sameFloats_append _ _ _ _ (compExp_floats p1 p2 h.1) (compExp_floats k1 k2 h.2)
+  | .call p1 m1 a1 _, .call p2 m2 a2 _, h => by
+    simp only [compExp, Bool.and_eq_true] at h
+    simp only [floats]
+    exact sameFloats_append _ _ _ _ (compExp_floats p1 p2 h.1.1) (compExps_floats a1 a2 h.2)
+  | .nil _, b, h | .tru _, b, h | .fls _, b, h | .vararg _, b, h | .int _ _, b, h | .str _ _, b, h | .name _ _, b, h
+  | .noKey, b, h | .bad _, b, h | .func _, b, h | .table _ _ _, b, h => by
+    cases b <;> simp [compExp] at h <;> simp [floats, sameFloats]
+  | .flt _ _, .noKey, h | .flt _ _, .nil _, h | .flt _ _, .tru _, h | .flt _ _, .fls _, h | .flt _ _, .vararg _, h
+  | .flt _ _, .int _ _, h | .flt _ _, .str _ _, h | .flt _ _, .unop _ _ _, h | .flt _ _, .binop _ _ _ _, h
+  | .flt _ _, .table _ _ _, h | .flt _ _, .func _, h | .flt _ _, .name _ _, h | .flt _ _, .parens _ _, h
+  | .flt _ _, .index _ _ _, h | .flt _ _, .call _ _ _ _, h | .flt _ _, .bad _, h => by simp [compExp] at h
+  | .parens _ _, .noKey, h | .parens _ _, .nil _, h | .parens _ _, .tru _, h | .parens _ _, .fls _, h
+  | .parens _ _, .vararg _, h | .parens _ _, .int _ _, h | .parens _ _, .flt _ _, h | .parens _ _, .str _ _, h
+  | .parens _ _, .unop _ _ _, h | .parens _ _, .binop _ _ _ _, h | .parens _ _, .table _ _ _, h | .parens _ _, .func _, h
+  | .parens _ _, .name _ _, h | .parens _ _, .index _ _ _, h | .parens _ _, .call _ _ _ _, h | .parens _ _, .bad _, h => by
+    simp [compExp] at h
+  | .unop _ _ _, .noKey, h | .unop _ _ _, .nil _, h | .unop _ _ _, .tru _, h | .unop _ _ _, .fls _, h
+  | .unop _ _ _, .vararg _, h | .unop _ _ _, .int _ _, h | .unop _ _ _, .flt _ _, h | .unop _ _ _, .str _ _, h
+  | .unop _ _ _, .binop _ _ _ _, h | .unop _ _ _, .table _ _ _, h | .unop _ _ _, .func _, h | .unop _ _ _, .name _ _, h
+  | .unop _ _ _, .parens _ _, h | .unop _ _ _, .index _ _ _, h | .unop _ _ _, .call _ _ _ _, h | .unop _ _ _, .bad _, h => by
+    simp [compExp] at h
+  | .binop _ _ _ _, .noKey, h | .binop _ _ _ _, .nil _, h | .binop _ _ _ _, .tru _, h | .binop _ _ _ _, .fls _, h
+  | .binop _ _ _ _, .vararg _, h | .binop _ _ _ _, .int _ _, h | .binop _ _ _ _, .flt _ _, h | .binop _ _ _ _, .str _ _, h
+  | .binop _ _ _ _, .unop _ _ _, h | .binop _ _ _ _, .table _ _ _, h | .binop _ _ _ _, .func _, h | .binop _ _ _ _, .name _ _, h
+  | .binop _ _ _ _, .parens _ _, h | .binop _ _ _ _, .index _ _ _, h | .binop _ _ _ _, .call _ _ _ _, h
+  | .binop _ _ _ _, .bad _, h => by simp [compExp] at h
+  | .index _ _ _, .noKey, h | .index _ _ _, .nil _, h | .index _ _ _, .tru _, h | .index _ _ _, .fls _, h
+  | .index _ _ _, .vararg _, h | .index _ _ _, .int _ _, h | .index _ _ _, .flt _ _, h | .index _ _ _, .str _ _, h
+  | .index _ _ _, .unop _ _ _, h | .index _ _ _, .binop _ _ _ _, h | .index _ _ _, .table _ _ _, h | .index _ _ _, .func _, h
+  | .index _ _ _, .name _ _, h | .index _ _ _, .parens _ _, h | .index _ _ _, .call _ _ _ _, h | .index _ _ _, .bad _, h => by
+    simp [compExp] at h
+  | .call _ _ _ _, .noKey, h | .call _ _ _ _, .nil _, h | .call _ _ _ _, .tru _, h | .call _ _ _ _, .fls _, h
+  | .call _ _ _ _, .vararg _, h | .call _ _ _ _, .int _ _, h | .call _ _ _ _, .flt _ _, h | .call _ _ _ _, .str _ _, h
+  | .call _ _ _ _, .unop _ _ _, h | .call _ _ _ _, .binop _ _ _ _, h | .call _ _ _ _, .table _ _ _, h | .call _ _ _ _, .func _, h
+  | .call _ _ _ _, .name _ _, h | .call _ _ _ _, .parens _ _, h | .call _ _ _ _, .index _ _ _, h | .call _ _ _ _, .bad _, h => by
+    simp [compExp] at h
+theorem compExps_floats : (a b : List Exp) → compExps a b = true → sameFloats (floatss a) (floatss b)
+  | [], [], _ => trivial
+  | x :: r, y :: s, h => by
+    simp only [compExps, Bool.and_eq_true] at h
+    simp only [floatss]
+    exact sameFloats_append _ _ _ _ (compExp_floats x y h.1) (compExps_floats r s h.2)
+  | [], _ :: _, h => by simp [compExps] at h
+  | _ :: _, [], h => by simp [compExps] at h
+end
+#print axioms compExp_floats
+
+/-- the value comparison is reflexive, and on decimal numerals it is equality of the rationals num / den -/
+theorem fltEq_refl (t : Bytes) : fltEq t t = true := by
+  unfold fltEq
+  cases fltVal t with
+  | none => simp
+  | some v => obtain ⟨n, d⟩ := v; simp
+#print axioms fltEq_refl
+
+theorem fltEq_value (a b : Bytes) (n1 d1 n2 d2 : Nat) (ha : fltVal a = some (n1, d1)) (hb : fltVal b = some (n2, d2)) :
+    fltEq a b = true ↔ n1 * d2 = n2 * d1 := by
+  simp [fltEq, ha, hb]
+#print axioms fltEq_value
+
+/-- `1.5` and `1.50` are the same value, `0.1` and `0.1000001` are not (the former tolerance of 1e-6
+    equated them), `1e2` is `100.0` -/
+theorem fltEq_examples :
+    fltEq [49, 46, 53] [49, 46, 53, 48] = true ∧                             -- 1.5, 1.50
+    fltEq [48, 46, 49] [48, 46, 49, 48, 48, 48, 48, 48, 49] = false ∧        -- 0.1, 0.1000001
+    fltEq [49, 101, 50] [49, 48, 48, 46, 48] = true ∧                        -- 1e2, 100.0
+    fltEq [50, 53, 101, 45, 49] [50, 46, 53] = true := by decide             -- 25e-1, 2.5
+#print axioms fltEq_examples
+
 /-! ### reflexivity: what is always caught -/
 
 mutual
@@ -175,7 +303,8 @@ end
 mutual
 theorem compExp_refl : (e : Exp) → plain e = true → compExp e e = true
   | .nil _, _ | .tru _, _ | .fls _, _ | .vararg _, _ => by simp [compExp]
-  | .int _ _, _ | .flt _ _, _ | .str _ _, _ | .name _ _, _ => by simp [compExp]
+  | .int _ _, _ | .str _ _, _ | .name _ _, _ => by simp [compExp]
+  | .flt t _, _ => by simp [compExp, fltEq_refl]
   | .unop _ e _, h => by simp only [plain] at h; simp [compExp, compExp_refl e h]
   | .parens e _, h => by simp only [plain] at h; simp [compExp, compExp_refl e h]
   | .binop _ a b _, h => by
@@ -409,5 +538,328 @@ theorem local_arity_exact (n : Nat) (exps : List Exp) (l : Loc) :
     · rename_i h1 h2; simp at h2; simp; right; exact ⟨by omega, by omega, h2.2⟩
     · rename_i h1 h2; simp at h2; simp; refine ⟨by omega, ?_⟩; intro h3 h4; exact h2 h3 h4
 #print axioms local_arity_exact
+
+
+/-! ### type 5: duplicate keys of a table constructor -/
+
+/-- the same constant key written twice: two integer keys with the same value, two string keys with the
+    same text (`a = …` is the string key "a"), or the same variable in brackets -/
+def sameKey : Exp → Exp → Bool
+  | .int a _, .int b _ => a == b
+  | .str a _, .str b _ => a == b
+  | .name a _, .name b _ => a == b
+  | _, _ => false
+
+/-- the key strings of two keys are equal exactly when they are the same constant key: the three
+    encodings ("#int" + digits, '"' + text, "!" + name) are injective and disjoint -/
+theorem keyStr_same (k1 k2 : Exp) (p : Loc) (s1 s2 : Bytes) (l1 l2 : Loc)
+    (h1 : keyStr k1 p = some (s1, l1)) (h2 : keyStr k2 p = some (s2, l2)) :
+    s1 = s2 ↔ sameKey k1 k2 = true := by
+  cases k1 <;> simp only [keyStr, Option.some.injEq, Prod.mk.injEq, reduceCtorEq] at h1 <;>
+    cases k2 <;> simp only [keyStr, Option.some.injEq, Prod.mk.injEq, reduceCtorEq] at h2 <;>
+    obtain ⟨rfl, rfl⟩ := h1 <;> obtain ⟨rfl, rfl⟩ := h2 <;> simp [sameKey, intKeyPrefix]
+  · constructor
+    · exact intStr_inj _ _
+    · intro h; rw [h]
+#print axioms keyStr_same
+
+theorem dupFrom_mem (parent : Loc) (r : Rep) : ∀ (ks : List Exp) (seen : List Bytes),
+    r ∈ dupFrom parent ks seen ↔
+      ∃ pre k post s l, ks = pre ++ k :: post ∧ keyStr k parent = some (s, l) ∧ r = { ty := 5, loc := l, tag := s } ∧
+        (s ∈ seen ∨ ∃ k' ∈ pre, ∃ l', keyStr k' parent = some (s, l'))
+  | [], seen => by simp [dupFrom]
+  | k0 :: rest, seen => by
+    unfold dupFrom
+    cases hk : keyStr k0 parent with
+    | none =>
+      simp only
+      rw [dupFrom_mem parent r rest seen]
+      constructor
+      · rintro ⟨pre, k, post, s, l, hs, hks, hr, hw⟩
+        refine ⟨k0 :: pre, k, post, s, l, by simp [hs], hks, hr, ?_⟩
+        rcases hw with hw | ⟨k', hk', l', hl'⟩
+        · exact Or.inl hw
+        · exact Or.inr ⟨k', by simp [hk'], l', hl'⟩
+      · rintro ⟨pre, k, post, s, l, hs, hks, hr, hw⟩
+        cases pre with
+        | nil =>
+          simp at hs
+          rw [← hs.1, hk] at hks
+          cases hks
+        | cons p pre' =>
+          simp at hs
+          obtain ⟨rfl, rfl⟩ := hs
+          refine ⟨pre', k, post, s, l, rfl, hks, hr, ?_⟩
+          rcases hw with hw | ⟨k', hk', l', hl'⟩
+          · exact Or.inl hw
+          · simp at hk'
+            rcases hk' with rfl | hk'
+            · rw [hk] at hl'; cases hl'
+            · exact Or.inr ⟨k', hk', l', hl'⟩
+    | some v =>
+      obtain ⟨s0, l0⟩ := v
+      simp only
+      by_cases hs0 : seen.contains s0 = true
+      · simp only [hs0, if_true, List.mem_cons]
+        rw [dupFrom_mem parent r rest seen]
+        have hmem : s0 ∈ seen := by simpa using hs0
+        constructor
+        · rintro (hr | ⟨pre, k, post, s, l, hs, hks, hr, hw⟩)
+          · exact ⟨[], k0, rest, s0, l0, rfl, hk, hr, Or.inl hmem⟩
+          · refine ⟨k0 :: pre, k, post, s, l, by simp [hs], hks, hr, ?_⟩
+            rcases hw with hw | ⟨k', hk', l', hl'⟩
+            · exact Or.inl hw
+            · exact Or.inr ⟨k', by simp [hk'], l', hl'⟩
+        · rintro ⟨pre, k, post, s, l, hs, hks, hr, hw⟩
+          cases pre with
+          | nil =>
+            simp at hs
+            rw [← hs.1, hk] at hks
+            simp at hks
+            left; rw [hr, hks.2, hks.1]
+          | cons p pre' =>
+            simp at hs
+            obtain ⟨rfl, rfl⟩ := hs
+            right
+            refine ⟨pre', k, post, s, l, rfl, hks, hr, ?_⟩
+            rcases hw with hw | ⟨k', hk', l', hl'⟩
+            · exact Or.inl hw
+            · simp at hk'
+              rcases hk' with rfl | hk'
+              · rw [hk] at hl'; simp at hl'; rw [← hl'.1]; exact Or.inl hmem
+              · exact Or.inr ⟨k', hk', l', hl'⟩
+      · simp only [hs0, Bool.false_eq_true, if_false]
+        rw [dupFrom_mem parent r rest (s0 :: seen)]
+        have hnm : s0 ∉ seen := by simpa using hs0
+        constructor
+        · rintro ⟨pre, k, post, s, l, hs, hks, hr, hw⟩
+          refine ⟨k0 :: pre, k, post, s, l, by simp [hs], hks, hr, ?_⟩
+          rcases hw with hw | ⟨k', hk', l', hl'⟩
+          · simp at hw
+            rcases hw with rfl | hw
+            · exact Or.inr ⟨k0, by simp, l0, hk⟩
+            · exact Or.inl hw
+          · exact Or.inr ⟨k', by simp [hk'], l', hl'⟩
+        · rintro ⟨pre, k, post, s, l, hs, hks, hr, hw⟩
+          cases pre with
+          | nil =>
+            simp at hs
+            rw [← hs.1, hk] at hks
+            simp at hks
+            rcases hw with hw | ⟨k', hk', _⟩
+            · rw [← hks.1] at hw; exact absurd hw hnm
+            · simp at hk'
+          | cons p pre' =>
+            simp at hs
+            obtain ⟨rfl, rfl⟩ := hs
+            refine ⟨pre', k, post, s, l, rfl, hks, hr, ?_⟩
+            rcases hw with hw | ⟨k', hk', l', hl'⟩
+            · exact Or.inl (by simp [hw])
+            · simp at hk'
+              rcases hk' with rfl | hk'
+              · rw [hk] at hl'; simp at hl'; exact Or.inl (by simp [hl'.1])
+              · exact Or.inr ⟨k', hk', l', hl'⟩
+
+/-- type 5, for every constructor: a key is reported exactly when an earlier key of the same constructor
+    has the same key string; the report is at the key (at the constructor for an integer key) -/
+theorem dupKeys_exact (keys : List Exp) (parent : Loc) (r : Rep) :
+    r ∈ dupKeys keys parent ↔
+      ∃ pre k post s l, keys = pre ++ k :: post ∧ keyStr k parent = some (s, l) ∧ r = { ty := 5, loc := l, tag := s } ∧
+        ∃ k' ∈ pre, ∃ l', keyStr k' parent = some (s, l') := by
+  rw [dupKeys_eq, dupFrom_mem]
+  simp
+#print axioms dupKeys_exact
+
+/-- with `keyStr_same`: the earlier key is the same constant key -/
+theorem dupKeys_sameKey (keys : List Exp) (parent : Loc) (r : Rep) (h : r ∈ dupKeys keys parent) :
+    ∃ pre k post, keys = pre ++ k :: post ∧ ∃ k' ∈ pre, sameKey k' k = true := by
+  obtain ⟨pre, k, post, s, l, hs, hk, _, k', hk', l', hl'⟩ := (dupKeys_exact keys parent r).1 h
+  exact ⟨pre, k, post, hs, k', hk', (keyStr_same k' k parent s s l' l hl' hk).1 rfl⟩
+#print axioms dupKeys_sameKey
+
+/-- the former false positives: a string key never equals a name key or an integer key, whatever its
+    text (`{ ["!x"] = 1, [x] = 2 }`, `{ ["#int1"] = 1, [1] = 2 }`), and the empty string key is a key -/
+theorem string_key_is_not_name_key (s n : Bytes) (l1 l2 p : Loc) :
+    dupKeys [.str s l1, .name n l2] p = [] := by
+  simp [dupKeys, dupKeys.go, keyStr]
+theorem string_key_is_not_int_key (s : Bytes) (v : Int) (l1 l2 p : Loc) :
+    dupKeys [.str s l1, .int v l2] p = [] := by
+  simp [dupKeys, dupKeys.go, keyStr, intKeyPrefix]
+theorem empty_string_key_checked (l1 l2 p : Loc) :
+    dupKeys [.str [] l1, .str [] l2] p = [{ ty := 5, loc := l2, tag := [34] }] := by
+  simp [dupKeys, dupKeys.go, keyStr]
+#print axioms string_key_is_not_name_key
+#print axioms string_key_is_not_int_key
+#print axioms empty_string_key_checked
+
+/-- finding C20-K2 (model = implementation ≠ property): duplicate boolean or float keys are not reported -/
+theorem K2_witness (l1 l2 p : Loc) : dupKeys [.tru l1, .tru l2] p = [] := by
+  simp [dupKeys, dupKeys.go, keyStr]
+#print axioms K2_witness
+
+/-! ### type 14: identical operands -/
+
+/-- an access path: names and string keys (no '#' in them), table accesses, redundant parentheses -/
+def pathLike : Exp → Bool
+  | .name n _ => !n.contains 35
+  | .str s _ => !s.contains 35
+  | .parens e _ => pathLike e
+  | .index p k _ => pathLike p && pathLike k
+  | _ => false
+
+/-- an access path without its redundant parentheses -/
+def strip : Exp → Exp
+  | .parens e _ => strip e
+  | .index p k l => .index (strip p) (strip k) l
+  | e => e
+
+/-- the name filter of the same-operand check lets exactly the access paths through -/
+theorem hash_iff : (e : Exp) → (containsHash (expName e) = false ↔ pathLike e = true)
+  | .name n _ => by simp [containsHash, expName, pathLike]
+  | .str s _ => by simp [containsHash, expName, pathLike]
+  | .parens e _ => by simpa [expName, pathLike] using hash_iff e
+  | .index p k _ => by
+    have h1 := hash_iff p
+    have h2 := hash_iff k
+    simp [containsHash] at h1 h2
+    simp [containsHash, expName, pathLike, h1, h2]
+  | .nil _ | .tru _ | .fls _ | .vararg _ | .int _ _ | .flt _ _ | .unop _ _ _ | .binop _ _ _ _
+  | .table _ _ _ | .func _ | .call _ _ _ _ | .bad _ | .noKey => by
+    simp [containsHash, expName, pathLike, hashTag]
+#print axioms hash_iff
+
+theorem expName_strip : (e : Exp) → expName (strip e) = expName e
+  | .parens e _ => by simpa [strip, expName] using expName_strip e
+  | .index p k _ => by simp [strip, expName, expName_strip p, expName_strip k]
+  | .nil _ | .tru _ | .fls _ | .vararg _ | .int _ _ | .flt _ _ | .unop _ _ _ | .binop _ _ _ _
+  | .table _ _ _ | .func _ | .call _ _ _ _ | .bad _ | .noKey | .name _ _ | .str _ _ => by simp [strip]
+
+theorem expName_erase : (e : Exp) → expName (erase e) = expName e
+  | .parens e _ => by simpa [erase, expName] using expName_erase e
+  | .index p k _ => by simp [erase, expName, expName_erase p, expName_erase k]
+  | .nil _ | .tru _ | .fls _ | .vararg _ | .int _ _ | .flt _ _ | .unop _ _ _ | .binop _ _ _ _
+  | .table _ _ _ | .func _ | .call _ _ _ _ | .bad _ | .noKey | .name _ _ | .str _ _ => by simp [erase, expName]
+
+/-- the confirmation step only accepts operands that are the same expression up to source locations and
+    redundant parentheses -/
+theorem sameOperand_sound (a b : Exp) : sameOperand a b = true → erase (strip a) = erase (strip b) := by
+  fun_induction sameOperand a b with
+  | case1 a l b ih => intro h; simpa [strip] using ih h
+  | case2 a b l hn ih => intro h; simpa [strip] using ih h
+  | case3 p1 k1 l1 p2 k2 l2 ih1 ih2 =>
+    intro h
+    simp only [Bool.and_eq_true] at h
+    simp [strip, erase, ih1 h.1, ih2 h.2]
+  | case4 a b h1 h2 h3 =>
+    intro h
+    have hs := compExp_sound a b h
+    cases a <;> cases b <;> first | (exact (h3 _ _ _ _ _ _ rfl rfl).elim) | simp_all [strip, compExp]
+#print axioms sameOperand_sound
+
+/-- … and it accepts every pair of access paths that are the same up to locations and parentheses -/
+theorem sameOperand_complete (a b : Exp) : pathLike a = true → pathLike b = true →
+    erase (strip a) = erase (strip b) → sameOperand a b = true := by
+  fun_induction sameOperand a b with
+  | case1 a l b ih => intro ha hb h; exact ih (by simpa [pathLike] using ha) hb (by simpa [strip] using h)
+  | case2 a b l hn ih => intro ha hb h; exact ih ha (by simpa [pathLike] using hb) (by simpa [strip] using h)
+  | case3 p1 k1 l1 p2 k2 l2 ih1 ih2 =>
+    intro ha hb h
+    simp only [pathLike, Bool.and_eq_true] at ha hb
+    simp only [strip, erase, Exp.index.injEq, and_true] at h
+    simp [ih1 ha.1 hb.1 h.1, ih2 ha.2 hb.2 h.2]
+  | case4 a b h1 h2 h3 =>
+    intro ha hb h
+    cases a <;> cases b <;> first | (exact (h3 _ _ _ _ _ _ rfl rfl).elim) | simp_all [strip, compExp, pathLike, erase]
+#print axioms sameOperand_complete
+
+/-- type 14, for every binary node: it is reported exactly when the operator is a comparison / and / or,
+    both operands are access paths, and they are the same path up to source locations and redundant
+    parentheses; the report spans both operands -/
+theorem sameOperands_exact (op : TK) (a b : Exp) (r : Rep) :
+    r ∈ r14 op a b ↔
+      r = { ty := 14, loc := spanLoc a b } ∧ isCmp op = true ∧ located a b = true ∧
+        pathLike a = true ∧ pathLike b = true ∧ erase (strip a) = erase (strip b) := by
+  unfold r14
+  constructor
+  · intro h
+    split at h
+    · rename_i hc
+      simp only [Bool.and_eq_true, Bool.not_eq_true', beq_iff_eq] at hc
+      obtain ⟨⟨⟨⟨⟨h1, h2⟩, h3⟩, h4⟩, h5⟩, h6⟩ := hc
+      simp at h
+      exact ⟨h, h1, h6, (hash_iff a).1 h2, (hash_iff b).1 h3, sameOperand_sound a b h5⟩
+    · simp at h
+  · rintro ⟨hr, h1, h6, ha, hb, he⟩
+    have hn : expName a = expName b := by
+      rw [← expName_strip a, ← expName_erase (strip a), he, expName_erase, expName_strip]
+    have h2 := (hash_iff a).2 ha
+    have h3 := (hash_iff b).2 hb
+    have h5 := sameOperand_complete a b ha hb he
+    simp [h1, h2, h3, hn, h5, h6, hr]
+#print axioms sameOperands_exact
+
+/-- the former false positives: a name and a string literal are never the same operand, whatever the
+    text of the string (`x == "!x"`); a dotted string key is not a chain of keys (`t["b.c"] == t.b.c`) -/
+theorem name_vs_string_not_same (op : TK) (n s : Bytes) (l1 l2 : Loc) :
+    r14 op (.name n l1) (.str s l2) = [] := by
+  apply List.eq_nil_iff_forall_not_mem.2
+  intro r h
+  have := ((sameOperands_exact op _ _ r).1 h).2.2.2.2.2
+  simp [strip, erase] at this
+theorem dotted_key_not_chain (op : TK) (t s b c : Bytes) (l1 l2 l3 l4 l5 l6 l7 l8 : Loc) :
+    r14 op (.index (.name t l1) (.str s l2) l3) (.index (.index (.name t l4) (.str b l5) l6) (.str c l7) l8) = [] := by
+  apply List.eq_nil_iff_forall_not_mem.2
+  intro r h
+  have := ((sameOperands_exact op _ _ r).1 h).2.2.2.2.2
+  simp [strip, erase] at this
+#print axioms name_vs_string_not_same
+#print axioms dotted_key_not_chain
+
+/-- finding C20-K1 (model = implementation ≠ property): identical operands that are not access paths
+    (`1 == 1`, `t[1] == t[1]`, `f() == f()`, `x + 1 == x + 1`) are not reported -/
+theorem K1_witness (op : TK) (v : Int) (l1 l2 : Loc) : r14 op (.int v l1) (.int v l2) = [] := by
+  apply List.eq_nil_iff_forall_not_mem.2
+  intro r h
+  have := ((sameOperands_exact op _ _ r).1 h).2.2.2.1
+  simp [pathLike] at this
+#print axioms K1_witness
+
+/-! ### the model's type-14 reports lie within the wider specification Spec/Pat.lean -/
+
+theorem sameOperand_spec (a b : Exp) : pathLike a = true → pathLike b = true → sameOperand a b = true →
+    compExp (PatSpec.stripAll a) (PatSpec.stripAll b) = true := by
+  fun_induction sameOperand a b with
+  | case1 a l b ih => intro ha hb h; simpa [PatSpec.stripAll] using ih (by simpa [pathLike] using ha) hb h
+  | case2 a b l hn ih => intro ha hb h; simpa [PatSpec.stripAll] using ih ha (by simpa [pathLike] using hb) h
+  | case3 p1 k1 l1 p2 k2 l2 ih1 ih2 =>
+    intro ha hb h
+    simp only [pathLike, Bool.and_eq_true] at ha hb h
+    simp [PatSpec.stripAll, compExp, ih1 ha.1 hb.1 h.1, ih2 ha.2 hb.2 h.2]
+  | case4 a b h1 h2 h3 =>
+    intro ha hb h
+    cases a <;> cases b <;> first | (exact (h3 _ _ _ _ _ _ rfl rfl).elim) | simp_all [PatSpec.stripAll, compExp, pathLike]
+
+/-- every type-14 report of the model is one the specification asks for -/
+theorem model14_within_spec (op : TK) (a b : Exp) (r : Rep) (h : r ∈ r14 op a b) : r ∈ PatSpec.spec14 op a b := by
+  have hx := (sameOperands_exact op a b r).1 h
+  obtain ⟨hr, h1, h6, ha, hb, he⟩ := hx
+  have hs := sameOperand_spec a b ha hb (sameOperand_complete a b ha hb he)
+  simp [PatSpec.spec14, h1, h6, hs, hr]
+#print axioms model14_within_spec
+
+/-! ### type 19 and the else branch -/
+
+/-- the `true` the parser stores for a plain else branch is not compared: the repeated-condition reports of
+    `if c1 … elseif cn … else … end` are those of c1 … cn -/
+theorem else_not_compared (cs : List Exp) (e : Exp) (bs : List Block) (l : Loc) (r : Rep) (h19 : r.ty = 19) :
+    r ∈ pStat (.if_ (cs ++ [e]) bs true l) ↔ (r ∈ dupIfs cs ∨ r ∈ (cs ++ [e]).flatMap pExp ∨ r ∈ bs.flatMap pBlock) := by
+  simp [pStat, List.dropLast_concat, or_assoc]
+#print axioms else_not_compared
+
+/-- `if true then … else … end` reports nothing (it used to report the else keyword) -/
+theorem if_true_else_clean (l1 l2 : Loc) :
+    dupIfs ([Exp.tru l1, Exp.tru l2].dropLast) = [] := by
+  simp [dupIfs]
+#print axioms if_true_else_clean
 
 end LuaHelper.C20
